@@ -4,7 +4,7 @@ import itertools
 import numpy as np
 
 from .. import tlc, dsys
-from ..common import MachineryFailure, import_dreye, pmap
+from ..common import MachineryFailure, import_dreye, pmap, grouped
 
 RULE = ("one TLC state per lattice system (non-negative A, K none/scalar/vector, baseline none/scalar/vector) with "
         "positive grid targets; per target the exact gamut class, the Poisson optimum where a box corner carries an "
@@ -105,6 +105,10 @@ def replay_state(args):
     return bad, nfit
 
 
+def _group(jobs):
+    return [replay_state(j) for j in jobs]
+
+
 def run(ctx):
     thorough = ctx.tier == "thorough"
     res = tlc.run("mc/MC_C07", cfg="mc/MC_C07_%s.cfg" % ("thorough" if thorough else "quick"), dump=True, timeout=3400)
@@ -114,7 +118,11 @@ def run(ctx):
     if not sts:
         raise MachineryFailure("no states")
     nexc = 12 if thorough else 6
-    parts = pmap(replay_state, [(st, nexc) for st in sts], chunksize=1)
+    # states of the same system (same A and adaptation, different baseline / bounds) run back to back in one process
+    groups = grouped(sts, lambda st: repr((st["sys"]["A"], st["sys"]["Kn"], st["sys"]["DK"])))
+    gparts = pmap(_group, [([(st, nexc) for st in g]) for g in groups], chunksize=1)
+    sts = [st for g in groups for st in g]
+    parts = [r for gp in gparts for r in gp]
     for st, (bad, nfit) in zip(sts, parts):
         for clause, where, exp, obs, r in bad:
             ctx.violation(clause, where, dict(sys=st["sys"], rec=r, fam=st["fam"]), exp, obs)
